@@ -249,6 +249,8 @@ func (x *Explorer) fieldTags(base types.Type, idx int) Tag {
 		return TTbl
 	case n == a.Schema && f == a.SchExtension:
 		return TObjName
+	case n == a.Schema && f == a.SchFields:
+		return TSchemaFields
 	}
 	return 0
 }
@@ -522,7 +524,7 @@ func (x *Explorer) stepStore(st *State, v *ssa.Store) {
 		if s := structOf(n); s != nil {
 			f := s.Field(ad.Field)
 			switch {
-			case n == a.ObjIndex || n == a.FieldIndex || n == a.IndexedField:
+			case n == a.ObjIndex || n == a.FieldIndex:
 				x.emit(st, &Event{Kind: EvEffect, Eff: x.subject3(bt, EIdxWLive, EIdxWTemp, EIdxWUnk), Instr: v, Tags: bt, VTags: vt, Struct: n, Field: f})
 				if isPointerLike(v.Val.Type()) && n != a.IndexedField {
 					x.L.Event(x, st, &Event{Kind: EvIdxContainerStore, Instr: v, Tags: bt, VTags: vt, Struct: n, Field: f})
@@ -578,6 +580,17 @@ func (x *Explorer) mapEvent(st *State, at ssa.Instruction, m ssa.Value, op strin
 		case "update":
 			x.emit(st, &Event{Kind: EvEffect, Eff: ETblW, Instr: at, VTags: vt})
 			st.add(ETblHas)
+			if mu, ok := at.(*ssa.MapUpdate); ok {
+				switch mu.Value.(type) {
+				case *ssa.Const, *ssa.Global:
+				default:
+					vs := st.symOf(mu.Value)
+					vf := st.facts[vs]
+					vf.Tags |= TFromTbl
+					st.env[vkey{st.depth(), mu.Value}] = vs
+					st.facts[vs] = vf
+				}
+			}
 		case "delete":
 			x.emit(st, &Event{Kind: EvEffect, Eff: ETblDel, Instr: at})
 			st.must = st.must.Minus(effs(ETblHas))
